@@ -301,7 +301,7 @@ func (d *driver) deployOpts(o *Op) *types.DeployOptions {
 	}
 }
 
-const chanDeadline = 8 * time.Second
+const chanDeadline = 25 * time.Second
 
 // run executes one API call with an optional armed fault and observes everything.
 func (d *driver) run(o Op, f *FaultSpec) *StepObs {
